@@ -54,6 +54,9 @@ pub struct Pool {
     pub avoid: Vec<String>,
 }
 
+/// runs one worker process serves before it is replaced
+pub const WORKER_RUNS: u64 = 12_000;
+
 struct WorkerProc {
     child: Child,
     stdin: ChildStdin,
@@ -90,6 +93,8 @@ pub fn clean_own_jails(workers: usize) {
 impl Pool {
     fn spawn(&self, w: usize) -> std::io::Result<WorkerProc> {
         let exe = std::env::current_exe()?;
+        // (a replaced worker starts on a directory of its own making)
+        let _ = std::fs::remove_dir_all(jail_dir(w));
         let mut cmd = Command::new(exe);
         cmd.arg("worker")
             .arg(self.prop.id())
@@ -129,6 +134,10 @@ impl Pool {
                 scope.spawn(move || {
                     let mut respawns = 0;
                     let mut proc_: Option<WorkerProc> = None;
+                    // a worker process serves a bounded number of tasks and is then replaced by a fresh one (fresh
+                    // process, fresh jail directory): no run depends on what tens of thousands of earlier runs left
+                    // in the process or in the kernel's bookkeeping of its directory
+                    let mut served = 0u64;
                     loop {
                         let task = {
                             let mut q = queue.lock().unwrap();
@@ -245,6 +254,14 @@ impl Pool {
                             }
                         }
                         if done {
+                            served += if task["t"] == "gen" { task["to"].as_u64().unwrap_or(0).saturating_sub(task["from"].as_u64().unwrap_or(0)) } else { 1 };
+                            if served >= WORKER_RUNS {
+                                if let Some(mut p) = proc_.take() {
+                                    drop(p.stdin);
+                                    let _ = p.child.wait();
+                                }
+                                served = 0;
+                            }
                             continue;
                         }
                         // the worker died (or ended itself after a hang) before finishing the task
